@@ -1,6 +1,7 @@
 package corpus
 
 import (
+	"encoding/json"
 	"fmt"
 	"go/ast"
 	"go/scanner"
@@ -251,6 +252,12 @@ var (
 	reStrLit     = regexp.MustCompile("`[^`]*`|\"(?:[^\"\\\\]|\\\\.)*\"")
 )
 
+// SubjectInventoryFile is the committed semantic-precondition inventory: rule group -> API functions its patterns and
+// messages named when the inventory was taken (VERIF_WRITE_SUBJECTS=1 vh c20 ... rewrites it from the current rules.go).
+func SubjectInventoryFile() string {
+	return filepath.Join(VerifRoot(), "corpus", "c20_subject_inventory.json")
+}
+
 // RuleSubjects derives, for every embedded rule group, the builtin / std functions spelled in its
 // Match patterns (read from the repository's rules.go on every run).
 func RuleSubjects() map[string][]Subject {
@@ -261,6 +268,10 @@ func RuleSubjects() map[string][]Subject {
 			return
 		}
 		src := string(data)
+		inventory := map[string][]Subject{}
+		if inv, err := os.ReadFile(SubjectInventoryFile()); err == nil {
+			json.Unmarshal(inv, &inventory)
+		}
 		locs := reFuncDecl.FindAllStringSubmatchIndex(src, -1)
 		for i, loc := range locs {
 			name := src[loc[2]:loc[3]]
@@ -292,10 +303,18 @@ func RuleSubjects() map[string][]Subject {
 					}
 				}
 			}
+			for _, s := range inventory[name] { // committed inventory (survives edits that drop the textual mention)
+				seen[s] = true
+			}
 			for s := range seen {
 				ruleSubjects[name] = append(ruleSubjects[name], s)
 			}
 			sort.Slice(ruleSubjects[name], func(a, b int) bool { return ruleSubjects[name][a].Spelling() < ruleSubjects[name][b].Spelling() })
+		}
+		if os.Getenv("VERIF_WRITE_SUBJECTS") != "" {
+			if data, err := json.MarshalIndent(ruleSubjects, "", " "); err == nil {
+				os.WriteFile(SubjectInventoryFile(), data, 0o644)
+			}
 		}
 	})
 	return ruleSubjects
